@@ -760,6 +760,20 @@ pub fn endo_boundary_scalars<G: GroupApi>(rng: &mut Rng, count: usize) -> Vec<Ve
             let mu_s = if i & 4 != 0 { -mu_i.clone() } else { mu_i.clone() };
             out.push(to_le(&modr(&k0 + &k1 * &mu_s), G::SC_LEN));
         }
+        // scalars with a prescribed split (k0, k1) well inside the cell: one half negative with its low 32 / 64 / 96
+        // bits zero (sign handling and limb carries of the absolute values), powers of two, tiny halves
+        let hb = (r.bits() as usize) / 2 - 4;
+        for i in 0..(count / 3).max(10) {
+            let z = [32usize, 64, 96, 32, 64][i % 5];
+            let rnd = |rng: &mut Rng| BigInt::from_biguint(Sign::Plus, BigUint::from_bytes_le(&rng.bytes(hb / 8)));
+            let mut a: BigInt = ((rnd(rng) >> z) << z) + (if i % 7 == 0 { BigInt::from(0) } else { BigInt::from(0) });
+            if a == BigInt::from(0) { a = BigInt::from(1) << z; }
+            let b: BigInt = match i % 4 { 0 => rnd(rng), 1 => BigInt::from(1), 2 => BigInt::from(1) << (hb - 1), _ => (rnd(rng) >> z) << z };
+            let (k0, k1) = match i % 6 { 0 => (-a.clone(), b.clone()), 1 => (b.clone(), -a.clone()), 2 => (-a.clone(), -b.clone()),
+                                         3 => (-a.clone(), -a.clone()), 4 => (a.clone(), -b.clone()), _ => (-b.clone(), a.clone()) };
+            let mu_s = if i & 8 != 0 { -mu_i.clone() } else { mu_i.clone() };
+            out.push(to_le(&modr(&k0 + &k1 * &mu_s), G::SC_LEN));
+        }
     }
     while out.len() < count {
         let e = rng.pick(&es).clone();
